@@ -35,6 +35,9 @@ REPS = [
     dict(pressure_mode='absolute', pressure_unit='torr', loading_basis='mass', loading_unit='mg', material_basis='mass', material_unit='g'),
     dict(pressure_mode='relative', pressure_unit=None, loading_basis='molar', loading_unit='mmol', material_basis='mass', material_unit='g'),
     dict(pressure_mode='relative%', pressure_unit=None, loading_basis='molar', loading_unit='mol', material_basis='mass', material_unit='g'),
+    # per volume of adsorbate: the same volume is a different amount at each temperature (isosteres are lines of constant amount)
+    dict(pressure_mode='absolute', pressure_unit='bar', loading_basis='volume_liquid', loading_unit='cm3', material_basis='mass', material_unit='g'),
+    dict(pressure_mode='absolute', pressure_unit='kPa', loading_basis='volume_gas', loading_unit='cm3', material_basis='mass', material_unit='g'),
 ]
 
 
@@ -92,8 +95,10 @@ def work_iso(arg):
     # loading points in the units the first isotherm is stored in (the function works in those)
     c_first = isos[0]
     if kind == 'point':
-        lo = max(x.loading().min() for x in isos) * 1.05
-        hi = min(x.loading().max() for x in isos) * 0.95
+        # every member carries the same molar grid: the common range expressed in the representation (and, for volumes of
+        # adsorbate, at the temperature) of the first isotherm
+        lo = isos[0].loading().min() * 1.05
+        hi = isos[0].loading().max() * 0.95
     else:
         lo, hi = 0.1, 3.2
     point_lists = [list(numpy.linspace(lo, hi, k)) for k in (len(temps), 1, 7)] + [None]
